@@ -41,7 +41,7 @@ Section Pools.
 Context {R E : Type}.
 
 (* a job / a result item: position in its batch (the job number) and what evaluating it gives *)
-Definition item := (nat * outcome R E)%type.
+Local Notation item := (nat * outcome R E)%type.
 
 Definition is_exc (it : item) : bool := match snd it with Exc _ => true | Ok _ => false end.
 Definition enum (outs : list (outcome R E)) : list item := combine (seq 0 (length outs)) outs.
@@ -83,20 +83,22 @@ Definition stepF (w : nat) (p : pool) : pool :=
   | it :: rest => Pool (upd (pend p) w (fun _ => rest)) (upd (resq p) w (fun q => q ++ [it])) (elog p ++ [it])
   end.
 
-Definition stepP (pm : pool * mstate) : pool * mstate :=
+(* one `if not process.queue.empty(): item = process.queue.get(); ...` at the sweep position *)
+Definition take (pm : pool * mstate) : pool * mstate :=
   let (p, m) := pm in
-  if done m then pm else
-  let c := cursor m in
-  let pm1 :=
-    match qnth (resq p) c with
-    | [] => (p, m)
-    | it :: rest =>
-        (Pool (pend p) (upd (resq p) c (fun _ => rest)) (elog p),
-         M c (S (count m)) (target m) (if is_exc it then Some it else exc m) (taken m ++ [it]) false)
-    end in
-  let (p1, m1) := pm1 in
-  if S c <? length (resq p) then (p1, M (S c) (count m1) (target m1) (exc m1) (taken m1) false)
-  else (p1, M 0 (count m1) (target m1) (exc m1) (taken m1) (target m1 <=? count m1)).
+  match qnth (resq p) (cursor m) with
+  | [] => pm
+  | it :: rest =>
+      (Pool (pend p) (upd (resq p) (cursor m) (fun _ => rest)) (elog p),
+       M (cursor m) (S (count m)) (target m) (if is_exc it then Some it else exc m) (taken m ++ [it]) (done m))
+  end.
+(* next process of the sweep; `while count < target` is tested between two sweeps *)
+Definition next (n : nat) (m : mstate) : mstate :=
+  if S (cursor m) <? n then M (S (cursor m)) (count m) (target m) (exc m) (taken m) (done m)
+  else M 0 (count m) (target m) (exc m) (taken m) (target m <=? count m).
+Definition stepP (pm : pool * mstate) : pool * mstate :=
+  if done (snd pm) then pm else
+  let (p1, m1) := take pm in (p1, next (length (resq (fst pm))) m1).
 
 Definition step (pm : pool * mstate) (a : action) : pool * mstate :=
   match a with
@@ -193,22 +195,26 @@ Definition stepT (w : nat) (s : jstate) : jstate :=
 
 Definition stepJP (s : jstate) : jstate :=
   if jdone s then s else
-  let c := jcur s in
-  match qnth (jrq s) c with
-  | it :: rest =>
-      J (jq s) (upd (jrq s) c (fun _ => rest)) (jalive s) c
+  match qnth (jrq s) (jcur s) with
+  | it :: rest =>    (* `while not process.queue.empty(): result = process.queue.get(); ...; yield result` *)
+      J (jq s) (upd (jrq s) (jcur s) (fun _ => rest)) (jalive s) (jcur s)
         (if is_exc it then S (S (jcount s)) else S (jcount s)) (jtarget s)
-        (if is_exc it then Some it else jexc s) (jtaken s ++ [it]) false
-  | [] =>
-      if S c <? length (jrq s) then J (jq s) (jrq s) (jalive s) (S c) (jcount s) (jtarget s) (jexc s) (jtaken s) false
+        (if is_exc it then Some it else jexc s) (jtaken s ++ [it]) (jdone s)
+  | [] =>            (* next process; `while process_count < total` is tested between two sweeps *)
+      if S (jcur s) <? length (jrq s)
+      then J (jq s) (jrq s) (jalive s) (S (jcur s)) (jcount s) (jtarget s) (jexc s) (jtaken s) (jdone s)
       else J (jq s) (jrq s) (jalive s) 0 (jcount s) (jtarget s) (jexc s) (jtaken s) (jtarget s <=? jcount s)
   end.
 
 Definition jstep (s : jstate) (a : jaction) : jstate := match a with T w => stepT w s | JP => stepJP s end.
 Definition jrun (sched : list jaction) (s : jstate) : jstate := fold_left jstep sched s.
 Definition jdrain_fuel (workers k : nat) : nat := (2 * k + 2) * workers + k.
+(* what can be observed of a call: the caller stops looking once the generator has returned or raised
+   (workers may go on taking jobs afterwards; their results are never read) *)
+Definition jstep_obs (s : jstate) (a : jaction) : jstate := if jdone s then s else jstep s a.
+Definition jrun_obs (sched : list jaction) (s : jstate) : jstate := fold_left jstep_obs sched s.
 Definition run_jobs (workers : nat) (outs : list (outcome R E)) (sched : list jaction) : jstate :=
-  jrun (sched ++ repeat JP (jdrain_fuel workers (length outs))) (jstart workers (enum outs)).
+  jrun_obs (sched ++ repeat JP (jdrain_fuel workers (length outs))) (jstart workers (enum outs)).
 
 (* ---------------- callers that key results by job number ---------------- *)
 Fixpoint lookup (k : nat) (l : list item) : option (outcome R E) :=
@@ -235,7 +241,7 @@ Arguments mstate : clear implicits.
 Arguments fstate : clear implicits.
 Arguments jstate : clear implicits.
 Arguments batch_obs : clear implicits.
-Arguments item : clear implicits.
+Notation item R E := (nat * outcome R E)%type (only parsing).
 
 (* ---------------- AbstractInitializer.samples_from_model ---------------- *)
 Section Initializer.
